@@ -28,6 +28,8 @@ type c16Engine struct {
 	putAt      []int64
 	started    bool
 	stuck      bool
+	lateErrEvery time.Duration // packet-style engines only: an error every so often after done
+	lateErrs     int
 }
 
 func (e *c16Engine) Results() <-chan scan.Result { return e.results.Chan() }
@@ -85,9 +87,37 @@ func (e *c16Engine) Start(ctx context.Context, r *scan.Range) (<-chan interface{
 		}
 	}()
 	if !e.errcOnDone {
+		// errors that keep arriving after the last probe has left (e.g. the interface went down and
+		// the receiver reports a read error every few milliseconds)
+		lateDone := make(chan struct{})
+		go func() {
+			defer close(lateDone)
+			if e.lateErrEvery <= 0 {
+				return
+			}
+			select {
+			case <-done:
+			case <-ctx.Done():
+				return
+			}
+			for k := 0; k < 200; k++ {
+				select {
+				case <-ctx.Done():
+					return
+				case <-time.After(e.lateErrEvery):
+				}
+				select {
+				case errc <- errors.New("read failed"):
+					e.lateErrs++
+				case <-ctx.Done():
+					return
+				}
+			}
+		}()
 		// packet engine: the error merger ends on cancellation, whatever the sender does
 		go func() {
 			<-ctx.Done()
+			<-lateDone
 			close(errc)
 		}()
 	}
@@ -141,6 +171,9 @@ func VerifH_C16_exitDelay() {
 	t := c16Pick("latency", 0, time.Millisecond, E-time.Millisecond)
 	eng.late = []time.Duration{t}
 	eng.errcOnDone = ndBool("errcClosesWithDone")
+	if !eng.errcOnDone && ndBool("errorsKeepComing") {
+		eng.lateErrEvery = E / 5 // more often than the delay is long
+	}
 	lg := &c16Logger{}
 	conf := newEngineConfig(withLogger(lg), withScanRange(&scan.Range{}), withExitDelay(E))
 	err := startScanEngine(ctx, eng, conf)
@@ -156,7 +189,7 @@ func VerifH_C16_exitDelay() {
 	}
 	verifAssert(ret >= eng.doneAt+int64(E), "the scan call returned before the exit delay had elapsed after the last probe")
 	verifAssert(ret <= eng.doneAt+int64(E)+int64(time.Millisecond), "the scan call did not return when the exit delay was over")
-	verifAssert(lg.errs == eng.errs, "errors not reported exactly once")
+	verifAssert(lg.errs >= eng.errs && lg.errs <= eng.errs+eng.lateErrs, "errors not reported exactly once")
 	verifCover("done")
 }
 
@@ -176,18 +209,20 @@ func VerifH_C16_default() {
 // running scan (before the first probe, while probing, at completion, during the exit delay),
 // with a fast or a slow result consumer: the scan call returns, nothing panics.
 func VerifH_C12_cancelScan() {
-	const E = 300 * time.Millisecond
+	// the exit delay is long (3 s): every cancel instant below falls before the first probe, while
+	// probing, or inside the exit delay - the call must not sit the delay out
+	E := c16Pick("exitDelay", 300*time.Millisecond, 3*time.Second)
 	verifNow() // start of the harness clock
 	ctx, cancel := context.WithCancel(context.Background())
 	eng := &c16Engine{results: scan.NewResultChan(ctx, 1000)}
 	eng.early = int(verifConcretize(uint64(ndU8("early") % 3)))
 	eng.errs = int(verifConcretize(uint64(ndU8("errs") % 3)))
-	eng.sendDur = c16Pick("sendDur", 0, 100*time.Millisecond)
+	eng.sendDur = c16Pick("sendDur", 10*time.Millisecond, 100*time.Millisecond) // never at the very instant of a cancel
 	eng.late = []time.Duration{time.Millisecond}
 	eng.errcOnDone = ndBool("errcClosesWithDone")
 	eng.stuck = !eng.errcOnDone && ndBool("senderStuck")
 	lg := &c16Logger{perItem: c16Pick("consumer", 0, 50*time.Millisecond)}
-	at := c16Pick("cancelAt", 0, time.Nanosecond, 50*time.Millisecond, 100*time.Millisecond, 100*time.Millisecond+500*time.Microsecond, 200*time.Millisecond)
+	at := c16Pick("cancelAt", 0, time.Nanosecond, 50*time.Millisecond, 100*time.Millisecond+500*time.Microsecond, 200*time.Millisecond)
 	go func() {
 		if at > 0 {
 			time.Sleep(at)
